@@ -78,7 +78,7 @@ ENGINES = {
 CHECKS = {
     "C01": {"engine": "e_static",
             "quick": {"shards": 8, "cases": 4000}, "thorough": {"shards": 16, "cases": 150000}},
-    "C02": {"engine": "e_static",
+    "C02": {"engine": "e_static", "fuzz": [{"engine": "e_static", "prop": "C02", "seconds": 240, "jobs": 6}],
             "quick": {"shards": 8, "cases": 4000}, "thorough": {"shards": 16, "cases": 150000}},
     "C03": {"engine": "e_seg",
             "quick": {"shards": 8, "cases": 4000}, "thorough": {"shards": 16, "cases": 120000}},
@@ -88,17 +88,17 @@ CHECKS = {
             "quick": {"shards": 8, "cases": 3000}, "thorough": {"shards": 16, "cases": 100000}},
     "C09": {"engine": "e_variants",
             "quick": {"shards": 8, "cases": 3000}, "thorough": {"shards": 16, "cases": 100000}},
-    "C10": {"engine": "e_variants",
+    "C10": {"engine": "e_variants", "fuzz": [{"engine": "e_variants", "prop": "C10", "seconds": 300, "jobs": 6}],
             "quick": {"shards": 8, "cases": 3000}, "thorough": {"shards": 16, "cases": 100000}},
     "C11": {"engine": "e_mapped",
             "quick": {"shards": 8, "cases": 2000}, "thorough": {"shards": 16, "cases": 40000}},
     "C12": {"engine": "e_mapped",
             "quick": {"shards": 8, "cases": 1500}, "thorough": {"shards": 16, "cases": 30000}},
-    "C13": {"engine": "e_multidim",
+    "C13": {"engine": "e_multidim", "fuzz": [{"engine": "e_multidim", "prop": "C13", "seconds": 300, "jobs": 6, "tape_words": 256}],
             "quick": {"shards": 8, "cases": 2000}, "thorough": {"shards": 16, "cases": 60000}},
     "C14": {"engine": "e_multidim",
             "quick": {"shards": 8, "cases": 2000}, "thorough": {"shards": 16, "cases": 60000}},
-    "C05": {"engine": "e_dynamic",
+    "C05": {"engine": "e_dynamic", "fuzz": [{"engine": "e_dynamic", "prop": "C05", "seconds": 300, "jobs": 6, "tape_words": 2048}],
             "quick": {"shards": 8, "cases": 1200}, "thorough": {"shards": 16, "cases": 30000}},
     "C06": {"engine": "e_dynamic",
             "quick": {"shards": 8, "cases": 1200}, "thorough": {"shards": 16, "cases": 30000}},
@@ -109,6 +109,8 @@ CHECKS = {
     "C20": {"engine": "e_reject",
             "quick": {"shards": 8, "cases": 2500}, "thorough": {"shards": 16, "cases": 60000}},
     "C17": {"variant": "asan", "mode": "mem", "replay_all_regressions": True,
+            "fuzz": [{"engine": "e_variants", "prop": "C10", "seconds": 240, "jobs": 4}, {"engine": "e_multidim", "prop": "C13", "seconds": 240, "jobs": 4, "tape_words": 256},
+                     {"engine": "e_variants", "prop": "C08", "seconds": 240, "jobs": 4}],
             "multi": [{"engine": "e_static", "prop": "C02"}, {"engine": "e_variants", "prop": "C08"}, {"engine": "e_variants", "prop": "C09"},
                       {"engine": "e_variants", "prop": "C10"}, {"engine": "e_mapped", "prop": "C11"}, {"engine": "e_mapped", "prop": "C12"},
                       {"engine": "e_multidim", "prop": "C13"}, {"engine": "e_multidim", "prop": "C14"}, {"engine": "e_dynamic", "prop": "C06"},
